@@ -48,8 +48,19 @@ class C11(Prop):
     design_ref = "DESIGN.md 4 C11"
     technique = ("Coq proof: invariants of a transcribed model of run_transport/drive_connection/State for all event sequences, write-result oracles and limits; "
                  "trace validation: real exporter on real sockets, hook log replayed through the model, streams and counters compared")
-    level_text = ""
-    level_note = ""
+    level_text = ("Theorems (Coq, all event sequences, all write-result oracles including short writes, EAGAIN and EINTR, buffer_size None and Some n): "
+                  "for every connected client at every event boundary the bytes its socket accepted are whole length-delimited frames followed by a proper prefix "
+                  "of one frame whose rest is parked in wbuf (C11_stream_integrity), so the Spec decoder never sees a torn, interleaved or duplicated frame "
+                  "(C11_frame_roundtrip[_torn_tail]); the frames are a subsequence of (metadata known at accept, in map order) ++ (metric frames fanned out since), "
+                  "all of them if drop-oldest never fired (C11_prefix_metadata_then_metrics_in_order); client_count = |clients| and should_send = (|clients| > 0) "
+                  "(C11_client_count_exact); start-up reaches the loop for every limit (C11_starts_for_every_limit). The four defects are refuted on the pre-fix "
+                  "settings of the model (C11_*_refuted_before_fix). Trace validation ties the model to /repo: every run replays the hook log of real exporters "
+                  "on real sockets through the model and compares per-client byte streams and boundary counters; spec_ok is evaluated on the streams the clients read.")
+    level_note = ("Partial: C11_spec_ok_on_model_partial proves only the start-up and counter clauses of spec_ok for the model's own output; the stream clauses are proved "
+                  "at the Prop level (C11_stream_integrity, C11_prefix_...) but not connected to the boolean stream_ok, and the end-to-end clause (every emission delivered, "
+                  "name/labels/operation intact, per-thread order) is checked on every run against the harness's emission list, not proved: it depends on the channel, "
+                  "the should_send gate seen from other threads and prost's Metric encoding, none of which is modelled. `overflowed` is a ghost flag set where drop-oldest "
+                  "discards (to_drain > 0). Trusted: Coq kernel; hand-written model; cfg(metrics_verif) hooks (event log, socket wrapper that scripts some write results).")
     assumptions = [
         "mio readiness, kernel socket buffers and the crossbeam channel are the runtime's (exercised, not modelled); the harness paces emissions so that at most buffer_size channel messages are in flight",
         "EINTR and part of the EAGAIN / short-write results of conn.write are injected by the cfg(metrics_verif) socket wrapper (a non-blocking loopback socket does not return EINTR on Linux); the rest come from the kernel",
